@@ -489,6 +489,18 @@ theorem sqlite_readonly_never_mutates_db (H : D → D) (s : Sql D) (op : Op D) (
 example : let s := DataStoreSqlite.reopen (DataStoreSqlite.run id (DataStoreSqlite.Sql.create .w) [.write idA (1 : Nat), .writeNc idB 2]) .r
     s.mode = .r ∧ s.locked = true ∧ s.fileExists = true ∧ s.rows.length = 2 := by decide
 
+/-- `write(unique_id="logs/x.fasta")`: with the record written first (code as it is) the call fails on the
+    md5 file and leaves the record as a stray file under `logs/`; with the md5 file written first
+    (fixes/C19-datastore-atomic-record.patch) it fails before anything is written.  Both raise
+    `FileNotFoundError`; for identifiers without a directory part the two orders are indistinguishable
+    (the refinement theorems hold for every `cfg`). -/
+theorem write_order_only_matters_for_directory_ids :
+    let uid : Str := ['l','o','g','s','/','x','.','f','a','s','t','a']
+    (step Cfg.asIs id (Dir.create .w fasta : Dir Nat) (.write uid 1)).2 = .err .fileNotFound ∧
+    keys (step Cfg.asIs id (Dir.create .w fasta : Dir Nat) (.write uid 1)).1.logs = [['x','.','f','a','s','t','a']] ∧
+    (step Cfg.repaired id (Dir.create .w fasta : Dir Nat) (.write uid 1)).2 = .err .fileNotFound ∧
+    (step Cfg.repaired id (Dir.create .w fasta : Dir Nat) (.write uid 1)).1.logs = [] := by decide
+
 /-! ## SQLite store: refinement of the dictionary -/
 
 open CogentModel.DataStoreSqlite in
